@@ -1239,7 +1239,9 @@ Proof. unfold dz_devs. wsimpl. cbn [rev]. rewrite map_app, concat_app. cbn. rewr
 
 (* a callback in a benign world: accepted *)
 Lemma dz_callback_benign d (w : world) :
-  dz_BW w -> w_entity zst w = Z.of_nat (length (dz_devs w)) -> Z.of_nat (length (dz_devs w)) + dz_len d <= dc_bomb c ->
+  dz_BW w -> w_entity zst w = Z.of_nat (length (dz_devs w)) ->
+  (Z.of_nat (length (dz_devs w)) + dz_len d <= dc_bomb c \/
+   Z.of_nat (length (dz_devs w)) + dz_len d <= c_HTP_COMPRESSION_BOMB_RATIO * w_message zst w) ->
   exists w', dz_callback zst c d w = (w', c_HTP_OK) /\ dz_BW w' /\ w_o zst w' = w_o zst w /\
              dz_devs w' = dz_devs w ++ dd_bytes d /\ w_entity zst w' = Z.of_nat (length (dz_devs w')) /\ w_message zst w' = w_message zst w.
 Proof.
@@ -1268,9 +1270,9 @@ Proof.
   assert (Hd3 : dz_devs w3 = dz_devs w2) by (unfold dz_devs; rewrite Hev3; reflexivity).
   assert (Hlen : w_entity zst w3 = Z.of_nat (length (dz_devs w3))).
   { rewrite He3, He2, Hd3, Hd2, Hent, app_length. unfold dz_len. lia. }
-  assert (Hnb : (w_entity zst w3 >? dc_bomb c) = false).
-  { rewrite Z.gtb_ltb. apply Z.ltb_ge. rewrite He3, He2, Hent. exact Hb. }
-  rewrite Hnb. cbn [andb].
+  assert (Hnb : (w_entity zst w3 >? dc_bomb c) && (w_entity zst w3 >? c_HTP_COMPRESSION_BOMB_RATIO * w_message zst w3) = false).
+  { apply andb_false_iff. rewrite !Z.gtb_ltb, !Z.ltb_ge. rewrite He3, He2, Hent, Hm3, Hm2. destruct Hb as [Hb|Hb]; [left|right]; exact Hb. }
+  rewrite Hnb.
   exists w3. repeat split; auto; try congruence; try apply HBW3.
 Qed.
 
@@ -1308,7 +1310,7 @@ Proof.
   { unfold dz_flush_full. destruct (dz_avail_out l =? 0)%nat eqn:Hao.
     - apply Nat.eqb_eq in Hao. unfold dz_deliver.
       destruct (dz_callback_benign (dz_some (dz_obuf l)) w HBW Hent) as (w1 & Hcb & HBW1 & Ho1 & Hd1 & He1 & Hm1).
-      { rewrite <- Hpay in Hbomb. rewrite !app_length in Hbomb. unfold dz_len. cbn [dd_bytes dz_some]. lia. }
+      { left. rewrite <- Hpay in Hbomb. rewrite !app_length in Hbomb. unfold dz_len. cbn [dd_bytes dz_some]. lia. }
       rewrite Hcb. rewrite Z.eqb_refl. cbn [negb].
       exists (dz_set_obuf l []), w1. wsimpl. cbn [dd_bytes dz_some] in Hd1. csplit; auto; try congruence.
       + unfold dz_avail_out. wsimpl. cbn [length]. unfold dz_BUF. rewrite dz_buf_size. lia.
@@ -1347,7 +1349,7 @@ Proof.
     assert (HBW2 : dz_BW w2) by (subst w2; exact HBW1).
     assert (Hent2 : w_entity zst w2 = Z.of_nat (length (dz_devs w2))) by (subst w2; exact Hent1).
     destruct (dz_callback_benign (dz_some (dz_obuf l2)) w2 HBW2 Hent2) as (w3 & Hcb & HBW3 & Ho3 & Hd3 & He3 & Hm3).
-    { subst l2 w2. wsimpl. rewrite <- Hpay1, Hp' in Hbomb. rewrite !app_length in Hbomb. unfold dz_len. cbn [dd_bytes dz_some]. rewrite app_length.
+    { left. subst l2 w2. wsimpl. rewrite <- Hpay1, Hp' in Hbomb. rewrite !app_length in Hbomb. unfold dz_len. cbn [dd_bytes dz_some]. rewrite app_length.
       replace (dz_devs (w_set_o zst w1 z')) with (dz_devs w1) by reflexivity. lia. }
     rewrite Hcb. rewrite Z.eqb_refl. cbn [negb].
     exists (dz_set_obuf l2 []), w3, c_HTP_OK. split; auto. split; [subst w2; wsimpl; congruence|]. right.
@@ -1440,7 +1442,7 @@ Proof.
   cbn [length dz_decompress] in Ht'. unfold dz_layer_run in Ht'. rewrite Hp, Hob in Ht'. cbn [dd_null dz_null] in Ht'.
   assert (Hent2 : w_entity zst w2 = Z.of_nat (length (dz_devs w2))) by exact Hent.
   destruct (dz_callback_benign dz_null w2 HBW2 Hent2) as (w3 & Hcb & HBW3 & Ho3 & Hd3 & He3 & Hm3).
-  { replace (dz_devs w2) with (dz_devs (tx_w zst t)) by reflexivity. rewrite Hd. unfold dz_len. cbn. lia. }
+  { left. replace (dz_devs w2) with (dz_devs (tx_w zst t)) by reflexivity. rewrite Hd. unfold dz_len. cbn. lia. }
   rewrite Hcb, Z.eqb_refl in Ht'. cbn [negb] in Ht'.
   unfold dz_gettimeofday in Ht'. rewrite (dz_after_call_benign w3 HBW3) in Ht'. cbn [fst] in Ht'.
   pose proof HBW3 as ((Hsp3 & Htp3) & Htb3). wsimpl. rewrite Htp3 in Ht'.
@@ -1461,4 +1463,353 @@ Proof.
   - destruct r as [|ch2 r2]; [exact HTD|].
     inversion Hall' as [|? ? (Hd1 & _) _]; subst. cbn [concat] in Hr. destruct ch2; [congruence|discriminate].
 Qed.
+
+Hypothesis Henabled : dc_enabled c = true.
+
+Lemma dz_cmp_gzip : (cmp_mem_nocasenorzero s_gzip s_gzip =? 0) = true. Proof. vm_compute. reflexivity. Qed.
+Lemma dz_cmp_deflate_1 : (cmp_mem_nocasenorzero s_deflate s_gzip =? 0) = false. Proof. vm_compute. reflexivity. Qed.
+Lemma dz_cmp_deflate_2 : (cmp_mem_nocasenorzero s_deflate s_xgzip =? 0) = false. Proof. vm_compute. reflexivity. Qed.
+Lemma dz_cmp_deflate_3 : (cmp_mem_nocasenorzero s_deflate s_deflate =? 0) = true. Proof. vm_compute. reflexivity. Qed.
+
+Lemma dz_headers_single ce wb (o : zst) :
+  (fmt = c_dz_COMPRESSION_GZIP /\ ce = s_gzip /\ wb = 15 + 32) \/ (fmt = c_dz_COMPRESSION_DEFLATE /\ ce = s_deflate /\ wb = -15) ->
+  dz_response_headers zst zask c (Some ce) (dz_world0 zst o) =
+  mk_dz_tx zst [mk_dz_layer false 0 fmt [] 0 false] fmt (w_set_o zst (dz_world0 zst o) (zinit wb)) false.
+Proof.
+  intros [(Hf & Hce & Hwb)|(Hf & Hce & Hwb)]; subst ce wb; unfold dz_response_headers; rewrite Henabled.
+  - rewrite dz_cmp_gzip. cbn [orb]. rewrite Hf. reflexivity.
+  - rewrite dz_cmp_deflate_1, dz_cmp_deflate_2, dz_cmp_deflate_3. cbn [orb]. rewrite Hf. reflexivity.
+Qed.
+
+Lemma dz_calls_app (t : dz_tx zst) a b : dz_calls zst zask c t (a ++ b) = dz_calls zst zask c (dz_calls zst zask c t a) b.
+Proof. revert t. induction a as [|[e d] r IH]; intros t; cbn [app dz_calls]; auto. Qed.
+
+Theorem dz_wrapper_faithful ce wb s chunks (o : zst) :
+  (fmt = c_dz_COMPRESSION_GZIP /\ ce = s_gzip /\ wb = 15 + 32) \/ (fmt = c_dz_COMPRESSION_DEFLATE /\ ce = s_deflate /\ wb = -15) ->
+  zvalid (zinit wb) s p -> s <> [] -> concat chunks = s ->
+  Forall (fun ch => ch <> [] /\ Z.of_nat (length ch) <= c_dz_UINT32_MAX /\ (length ch + length p < dc_fuel c)%nat) chunks ->
+  dz_devs (tx_w zst (fst (dz_run zst zask c (Some ce) (map (fun ch => (0, Some ch)) chunks ++ [(0, None)]) o))) = p.
+Proof.
+  intros Hsel Hv Hs Hcat Hall. unfold dz_run. rewrite (dz_headers_single ce wb o Hsel). cbn [fst tx_w tx_chain tx_cep].
+  rewrite dz_calls_app.
+  set (tx0 := mk_dz_tx zst [mk_dz_layer false 0 fmt [] 0 false] fmt (w_set_o zst (dz_world0 zst o) (zinit wb)) false).
+  assert (HTI : dz_TI (zinit wb) (concat chunks) p tx0).
+  { exists (mk_dz_layer false 0 fmt [] 0 false). subst tx0. cbn [tx_chain tx_cep tx_w]. wsimpl. rewrite Hcat.
+    unfold dz_BW0, dz_devs, dz_world0. wsimpl. cbn. csplit; auto. lia. }
+  assert (Hne : concat chunks <> []) by congruence.
+  pose proof (dz_calls_faithful chunks tx0 (zinit wb) p HTI Hne Hall) as HTD.
+  set (t1 := dz_calls zst zask c tx0 (map (fun ch => (0, Some ch)) chunks)) in *.
+  pose proof (dz_process_null_faithful t1 HTD) as [Hd Hc]. cbv zeta in Hd, Hc.
+  change (dz_calls zst zask c t1 [(0, None)]) with (fst (dz_process_body_data zst zask c t1 0 None)).
+  rewrite Hc. cbn [dz_destroy]. exact Hd.
+Qed.
 End Faithful.
+
+(* ------------------------------------------------------------------ Part 4: data that no decoder accepts is passed through *)
+
+Section Passthrough.
+Variable OT : Type.
+Variable ask : OT -> dz_query -> dz_ans * OT.
+(* every inflate attempt fails at once without output (Z_DATA_ERROR), re-initialisation succeeds *)
+Hypothesis Hrej : forall o inp ao, da_rc (fst (ask o (QInflate inp ao))) = c_dz_Z_DATA_ERROR /\ da_out (fst (ask o (QInflate inp ao))) = [].
+Hypothesis Hini : forall o wb, da_rc (fst (ask o (QInit wb))) = c_dz_Z_OK.
+
+Variable c : dz_cfg.
+Variable t0 : Z * Z.
+Hypothesis Hclock : forall k, dc_clock c k = t0.
+Hypothesis Htlimit : 0 <= dc_tlimit c.
+Hypothesis Hhook : forall k, dc_hook c k = c_HTP_OK.
+Hypothesis Hfuel : (5 <= dc_fuel c)%nat.
+
+Notation world := (dz_world OT).
+Notation BW := (dz_BW OT t0).
+Notation BW0 := (dz_BW0 OT).
+
+Ltac wsimpl := cbn [w_o w_entity w_message w_events w_nhook w_nclock w_nbcb w_tbefore w_tspent w_tpass w_trace w_late
+                    w_set_o w_set_entity w_set_message w_push_event w_tick_clock w_set_nbcb w_set_tbefore w_set_tspent
+                    w_set_tpass w_set_trace w_set_late
+                    dz_pass dz_restart dz_zinit dz_obuf dz_hlen dz_fed
+                    dz_set_pass dz_set_restart dz_set_zinit dz_set_obuf dz_set_hlen dz_set_fed fst snd] in *.
+Ltac csplit := repeat match goal with |- _ /\ _ => split end.
+
+(* worlds that differ only in the external state and the trace/ghost flags *)
+Definition dz_sim (w w' : world) : Prop :=
+  w_entity OT w' = w_entity OT w /\ w_message OT w' = w_message OT w /\ w_events OT w' = w_events OT w /\
+  w_tspent OT w' = w_tspent OT w /\ w_tpass OT w' = w_tpass OT w /\ w_tbefore OT w' = w_tbefore OT w.
+Lemma dz_sim_refl w : dz_sim w w. Proof. unfold dz_sim. csplit; reflexivity. Qed.
+Lemma dz_sim_trans a b d : dz_sim a b -> dz_sim b d -> dz_sim a d.
+Proof. unfold dz_sim. intros (?&?&?&?&?&?) (?&?&?&?&?&?). csplit; congruence. Qed.
+Lemma dz_ask_sim (w : world) q : dz_sim w (snd (dz_ask OT ask w q)).
+Proof. unfold dz_ask. destruct (ask (w_o OT w) q). cbn [snd]. unfold dz_sim. wsimpl. csplit; reflexivity. Qed.
+
+Definition dz_gd (fmt : Z) : Prop := fmt = c_dz_COMPRESSION_GZIP \/ fmt = c_dz_COMPRESSION_DEFLATE.
+
+(* one loop iteration on data the decoder rejects: either a restart with the other/same window bits, or the raw fallback *)
+Lemma dz_iter_reject next (d : dz_data) l (w : world) b input' rc0 :
+  dz_pass l = false -> dz_gd (dz_zinit l) -> dz_obuf l = [] -> dz_probe (dd_bytes d) = O ->
+  (dz_restart l < 3)%nat /\
+    (exists l' w', dz_iter OT ask c next d l [] w (b :: input') rc0 = DzRestart OT l' [] w' 0 c_dz_Z_DATA_ERROR /\
+       dz_pass l' = false /\ dz_gd (dz_zinit l') /\ dz_obuf l' = [] /\ dz_restart l' = S (dz_restart l) /\ dz_sim w w')
+  \/
+  (3 <= dz_restart l)%nat /\
+    (exists w', dz_sim w w' /\
+       dz_iter OT ask c next d l [] w (b :: input') rc0 =
+       (let '(w'', crc) := dz_callback OT c d w' in
+        if negb (crc =? c_HTP_OK) then DzRet OT (dz_set_zinit l 0) [] w'' c_HTP_ERROR
+        else DzRet OT (dz_set_pass (dz_set_obuf (dz_set_zinit l 0) []) true) [] w'' c_HTP_OK)).
+Proof.
+  intros Hp Hgd Hob Hprobe.
+  assert (Hnl : (dz_zinit l =? c_dz_COMPRESSION_LZMA) = false) by (destruct Hgd as [-> | ->]; reflexivity).
+  assert (Hn0 : (dz_zinit l =? 0) = false) by (destruct Hgd as [-> | ->]; reflexivity).
+  unfold dz_iter, dz_flush_full.
+  assert (Hao : (dz_avail_out l =? 0)%nat = false) by (unfold dz_avail_out; rewrite Hob; reflexivity). rewrite Hao.
+  unfold dz_decode. rewrite Hnl, Hn0. cbn [negb].
+  pose proof (dz_ask_sim w (QInflate (b :: input') (dz_avail_out l))) as Hs1.
+  unfold dz_ask in *. pose proof (Hrej (w_o OT w) (b :: input') (dz_avail_out l)) as [Hrc Hout].
+  destruct (ask (w_o OT w) (QInflate (b :: input') (dz_avail_out l))) as [a1 o1]. cbn [fst snd da_rc da_out] in *.
+  rewrite Hout, Hrc. cbn [firstn]. rewrite firstn_nil.
+  unfold dz_after. wsimpl. rewrite Hob. cbn [app].
+  assert (Hfull : (dz_avail_out (dz_set_obuf l []) <? dz_BUF)%nat = false) by reflexivity. rewrite Hfull. cbn [andb].
+  replace (c_dz_Z_DATA_ERROR =? c_dz_Z_STREAM_END) with false by reflexivity.
+  replace (c_dz_Z_DATA_ERROR =? c_dz_Z_OK) with false by reflexivity. cbn [negb].
+  unfold dz_fail_end. wsimpl. rewrite Hnl.
+  set (w1 := w_set_o OT w o1) in *.
+  pose proof (dz_ask_sim w1 QEnd) as Hs2. unfold dz_ask in *.
+  destruct (ask (w_o OT w1) QEnd) as [a2 o2]. cbn [snd] in Hs2. set (w2 := w_set_o OT w1 o2) in *.
+  set (w3 := if dz_fed (dz_set_obuf l []) then w_set_late OT w2 true else w2).
+  assert (Hs3 : dz_sim w w3).
+  { eapply dz_sim_trans; [exact Hs1|]. eapply dz_sim_trans; [exact Hs2|]. subst w3. destruct (dz_fed (dz_set_obuf l [])); unfold dz_sim; wsimpl; csplit; reflexivity. }
+  unfold dz_restart_dec. wsimpl.
+  destruct (dz_restart l <? 3)%nat eqn:Hr3.
+  - apply Nat.ltb_lt in Hr3. left. split; auto.
+    assert (Hini' : forall (w0 : world) wb, exists a o, ask (w_o OT w0) (QInit wb) = (a, o) /\ da_rc a = c_dz_Z_OK).
+    { intros w0 wb. pose proof (Hini (w_o OT w0) wb). destruct (ask (w_o OT w0) (QInit wb)) as [a o]. exists a, o. auto. }
+    destruct (dz_restart l =? 0)%nat.
+    + unfold dz_ask. destruct (Hini' w3 (if dz_zinit l =? c_dz_COMPRESSION_GZIP then 15 + 32 else -15)) as (a3 & o3 & Ha3 & Hrc3).
+      rewrite Ha3. cbn [da_rc]. rewrite Hrc3, Z.eqb_refl. cbn [negb]. rewrite Hprobe.
+      eexists _, _. split; [reflexivity|]. wsimpl. csplit; auto.
+    + destruct Hgd as [Hg|Hg]; rewrite Hg.
+      * replace (c_dz_COMPRESSION_GZIP =? c_dz_COMPRESSION_DEFLATE) with false by reflexivity. rewrite Z.eqb_refl.
+        unfold dz_ask. destruct (Hini' w3 (-15)) as (a3 & o3 & Ha3 & Hrc3).
+        rewrite Ha3. cbn [da_rc]. rewrite Hrc3, Z.eqb_refl. cbn [negb]. rewrite Hprobe.
+        eexists _, _. split; [reflexivity|]. wsimpl. csplit; auto. right. reflexivity.
+        * rewrite Z.eqb_refl.
+        unfold dz_ask. destruct (Hini' w3 (15 + 32)) as (a3 & o3 & Ha3 & Hrc3).
+        rewrite Ha3. cbn [da_rc]. rewrite Hrc3, Z.eqb_refl. cbn [negb]. rewrite Hprobe.
+        eexists _, _. split; [reflexivity|]. wsimpl. csplit; auto. left. reflexivity.
+    - apply Nat.ltb_ge in Hr3. right. split; auto. exists w3. split; auto.
+    replace (dz_set_obuf l []) with l; [reflexivity|]. destruct l; simpl in Hob; subst; reflexivity.
+Qed.
+
+Lemma dz_sim_BW (w w' : world) : dz_sim w w' -> BW w -> BW w'.
+Proof. unfold dz_sim, dz_BW, dz_BW0. intros (?&?&?&?&?&?) ((?&?)&?). csplit; congruence. Qed.
+Lemma dz_sim_devs (w w' : world) : dz_sim w w' -> dz_devs w' = dz_devs w.
+Proof. unfold dz_sim, dz_devs. intros (?&?&He&_). rewrite He. reflexivity. Qed.
+
+Lemma dz_end_sim l (w : world) : dz_sim w (snd (dz_end OT ask l w)).
+Proof.
+  unfold dz_end. destruct (dz_zinit l =? c_dz_COMPRESSION_LZMA).
+  - pose proof (dz_ask_sim w QLzFree) as Hs. destruct (dz_ask OT ask w QLzFree). exact Hs.
+  - destruct (negb (dz_zinit l =? 0)); [|apply dz_sim_refl].
+    pose proof (dz_ask_sim w QEnd) as Hs. destruct (dz_ask OT ask w QEnd). exact Hs.
+Qed.
+Lemma dz_destroy_sim ls : forall (w : world), dz_sim w (dz_destroy OT ask ls w).
+Proof.
+  induction ls as [|l r IH]; intros w; cbn [dz_destroy]; [apply dz_sim_refl|].
+  pose proof (dz_end_sim l w) as Hs. destruct (dz_end OT ask l w) as [l1 w1]. cbn [snd] in Hs. eapply dz_sim_trans; eauto.
+Qed.
+
+Definition dz_PS (w0 : world) (d : dz_data) (l' : dz_layer) (w' : world) : Prop :=
+  dz_pass l' = true /\ dz_devs w' = dz_devs w0 ++ dd_bytes d /\ BW w' /\
+  w_entity OT w' = Z.of_nat (length (dz_devs w')) /\ w_message OT w' = w_message OT w0.
+
+Lemma dz_loop_reject next (d : dz_data) b data' : dd_bytes d = b :: data' -> dz_probe (dd_bytes d) = O ->
+  Z.of_nat (length (dd_bytes d)) <= c_dz_UINT32_MAX ->
+  forall k l (w w0 : world) fuel rc0,
+  dz_pass l = false -> dz_gd (dz_zinit l) -> dz_obuf l = [] -> (dz_restart l + k = 3)%nat -> (k + 1 < fuel + 1)%nat -> (0 < fuel)%nat ->
+  dz_sim w0 w -> BW w0 -> w_entity OT w0 = Z.of_nat (length (dz_devs w0)) ->
+  Z.of_nat (length (dz_devs w0)) + dz_len d <= c_HTP_COMPRESSION_BOMB_RATIO * w_message OT w0 ->
+  exists l' w', dz_loop OT ask c next fuel d l [] w (dd_bytes d) rc0 = (l', [], w', c_HTP_OK) /\ dz_PS w0 d l' w'.
+Proof.
+  intros Hd Hprobe Hu32.
+  induction k as [|k IH]; intros l w w0 fuel rc0 Hp Hgd Hob Hr Hf Hf0 Hsim HBW Hent Hbomb;
+    (destruct fuel as [|f]; [lia|]); cbn [dz_loop]; rewrite Hd;
+    destruct (dz_iter_reject next d l w b data' rc0 Hp Hgd Hob Hprobe) as [(Hlt & l1 & w1 & Hit & Hp1 & Hgd1 & Hob1 & Hr1 & Hs1)|(Hge & w1 & Hs1 & Hit)]; try lia.
+  - (* the last attempt failed: raw fallback *)
+    rewrite Hit.
+    assert (Hs01 : dz_sim w0 w1) by (eapply dz_sim_trans; eauto).
+    destruct (dz_callback_benign OT c t0 Hclock Htlimit Hhook [] d w1) as (w2 & Hcb & HBW2 & _ & Hd2 & He2 & Hm2).
+    + eapply dz_sim_BW; eauto.
+    + rewrite (dz_sim_devs _ _ Hs01). destruct Hs01 as (He&_). congruence.
+    + right. rewrite (dz_sim_devs _ _ Hs01). destruct Hs01 as (_&Hm&_). rewrite Hm. exact Hbomb.
+    + rewrite Hcb, Z.eqb_refl. cbn [negb]. eexists _, w2. split; [reflexivity|].
+      unfold dz_PS. wsimpl. rewrite (dz_sim_devs _ _ Hs01) in Hd2. destruct Hs01 as (_&Hm&_). csplit; auto; congruence.
+  - (* a restart: go round again with the whole block *)
+    rewrite Hit.
+    assert (Henter : dz_enter d 0 = Some (dd_bytes d)).
+    { unfold dz_enter. cbn [skipn]. unfold dz_len.
+      replace (length (dd_bytes d) <? 0)%nat with false by (symmetry; apply Nat.ltb_ge; lia).
+      replace (Z.of_nat (length (dd_bytes d)) >? c_dz_UINT32_MAX) with false by (symmetry; rewrite Z.gtb_ltb; apply Z.ltb_ge; lia). reflexivity. }
+    rewrite Henter.
+    apply (IH l1 w1 w0 f c_dz_Z_DATA_ERROR); auto; try lia. eapply dz_sim_trans; eauto.
+Qed.
+
+Variable fmt : Z.
+Hypothesis Hfmt : dz_gd fmt.
+
+Lemma dz_gd_coded : dz_is_coded fmt = true.
+Proof. destruct Hfmt as [-> | ->]; reflexivity. Qed.
+
+(* between calls, after the fallback: layer in passthrough, entity_len = message_len = bytes delivered *)
+Definition dz_PI (t : dz_tx OT) : Prop :=
+  exists l, tx_chain OT t = [l] /\ tx_cep OT t = fmt /\ dz_pass l = true /\ BW0 (tx_w OT t) /\
+    w_entity OT (tx_w OT t) = Z.of_nat (length (dz_devs (tx_w OT t))) /\ w_message OT (tx_w OT t) = Z.of_nat (length (dz_devs (tx_w OT t))).
+
+Lemma dz_after_call_benign' (w : world) : BW w ->
+  match dz_timer_track (w_tspent OT (w_tick_clock OT w)) (dc_clock c (w_nclock OT w)) (w_tbefore OT (w_tick_clock OT w)) with
+  | Some sp => if sp >? dc_tlimit c then w_set_tpass OT (w_set_tspent OT (w_tick_clock OT w) sp) true else w_set_tspent OT (w_tick_clock OT w) sp
+  | None => w_tick_clock OT w
+  end = w_set_tspent OT (w_tick_clock OT w) 0.
+Proof. intros H. exact (dz_after_call_benign OT c t0 Hclock Htlimit [] w H). Qed.
+
+Lemma dz_process_pass (t : dz_tx OT) data :
+  dz_PI t ->
+  let t' := fst (dz_process_body_data OT ask c t 0 data) in
+  dz_devs (tx_w OT t') = dz_devs (tx_w OT t) ++ dd_bytes (dz_data_of data) /\
+  match data with Some _ => dz_PI t' | None => tx_chain OT t' = [] end.
+Proof.
+  intros (l & Hch & Hcep & Hp & HBW0 & Hent & Hmsg) t'.
+  assert (Ht' : t' = fst (dz_process_body_data OT ask c t 0 data)) by reflexivity. clearbody t'.
+  unfold dz_process_body_data in Ht'. cbv zeta in Ht'. rewrite Hcep, dz_gd_coded, Hch in Ht'.
+  unfold dz_gettimeofday at 1 in Ht'.
+  set (d := dz_data_of data) in *.
+  set (w1 := w_set_message OT (tx_w OT t) (w_message OT (tx_w OT t) + 0 + dz_len d)) in *.
+  set (w2 := w_set_nbcb OT (w_set_tbefore OT (w_tick_clock OT w1) (dc_clock c (w_nclock OT w1))) 0) in *.
+  assert (HBW2 : BW w2) by (apply (dz_BW_enter OT c t0 Hclock); exact HBW0).
+  cbn [length dz_decompress] in Ht'. unfold dz_layer_run in Ht'. rewrite Hp in Ht'.
+  pose proof dz_bomb_ratio_ge as HR. pose proof (dz_len_nonneg d) as Hd0.
+  destruct (dz_callback_benign OT c t0 Hclock Htlimit Hhook [] d w2 HBW2) as (w3 & Hcb & HBW3 & _ & Hd3 & He3 & Hm3).
+  { exact Hent. }
+  { right. replace (dz_devs w2) with (dz_devs (tx_w OT t)) by reflexivity. replace (w_message OT w2) with (w_message OT (tx_w OT t) + 0 + dz_len d) by reflexivity.
+    rewrite Hmsg. nia. }
+  rewrite Hcb in Ht'.
+  unfold dz_gettimeofday in Ht'. rewrite (dz_after_call_benign' w3 HBW3) in Ht'. cbn [fst] in Ht'.
+  pose proof HBW3 as ((Hsp3 & Htp3) & Htb3). wsimpl. rewrite Htp3 in Ht'.
+  replace (dz_devs w2) with (dz_devs (tx_w OT t)) in Hd3 by reflexivity.
+  destruct data as [bts|]; subst t'; cbn [tx_w tx_chain tx_cep].
+  - split; [exact Hd3|]. exists l. cbn [tx_w tx_chain tx_cep]. unfold dz_BW0. wsimpl.
+    replace (dz_devs (w_set_tpass OT (w_set_tspent OT (w_tick_clock OT w3) 0) false)) with (dz_devs w3) by reflexivity.
+    csplit; auto. cbn [tx_w]. wsimpl.
+    replace (dz_devs (w_set_tpass OT (w_set_tspent OT (w_tick_clock OT w3) 0) false)) with (dz_devs w3) by reflexivity.
+    rewrite Hm3. replace (w_message OT w2) with (w_message OT (tx_w OT t) + 0 + dz_len d) by reflexivity.
+    rewrite Hmsg, Hd3, app_length. unfold dz_len. lia.
+  - split; auto. cbn [fst tx_w]. rewrite (dz_sim_devs _ _ (dz_destroy_sim _ _)). exact Hd3.
+Qed.
+
+Lemma dz_calls_pass chunks : forall (t : dz_tx OT), dz_PI t ->
+  let t' := dz_calls OT ask c t (map (fun ch => (0, Some ch)) chunks) in
+  dz_PI t' /\ dz_devs (tx_w OT t') = dz_devs (tx_w OT t) ++ concat chunks.
+Proof.
+  induction chunks as [|ch r IH]; intros t HPI; cbn [map dz_calls concat].
+  - split; auto. rewrite app_nil_r. reflexivity.
+  - destruct (dz_process_pass t (Some ch) HPI) as [Hd HPI']. cbv zeta in Hd, HPI'.
+    destruct (IH _ HPI') as [HPI'' Hd'']. cbv zeta in HPI'', Hd''. split; auto.
+    rewrite Hd'', Hd. cbn [dz_data_of dd_bytes dz_some]. rewrite app_assoc. reflexivity.
+Qed.
+
+Hypothesis Henabled : dc_enabled c = true.
+
+(* the first body call: four decoders refuse the block, it is handed on as it is and the layer goes to passthrough *)
+Lemma dz_process_first (t : dz_tx OT) l b ch' :
+  tx_chain OT t = [l] -> tx_cep OT t = fmt -> dz_pass l = false -> dz_zinit l = fmt -> dz_obuf l = [] -> dz_restart l = O ->
+  BW0 (tx_w OT t) -> w_entity OT (tx_w OT t) = 0 -> w_message OT (tx_w OT t) = 0 -> w_events OT (tx_w OT t) = [] ->
+  dz_probe (b :: ch') = O -> Z.of_nat (length (b :: ch')) <= c_dz_UINT32_MAX ->
+  let t' := fst (dz_process_body_data OT ask c t 0 (Some (b :: ch'))) in
+  dz_PI t' /\ dz_devs (tx_w OT t') = b :: ch'.
+Proof.
+  intros Hch Hcep Hp Hz Hob Hr HBW0 He0 Hm0 Hev0 Hprobe Hu32 t'.
+  assert (Ht' : t' = fst (dz_process_body_data OT ask c t 0 (Some (b :: ch')))) by reflexivity. clearbody t'.
+  unfold dz_process_body_data in Ht'. cbv zeta in Ht'. rewrite Hcep, dz_gd_coded, Hch in Ht'.
+  cbn [dz_data_of] in Ht'. unfold dz_gettimeofday at 1 in Ht'.
+  set (d := dz_some (b :: ch')) in *.
+  set (w1 := w_set_message OT (tx_w OT t) (w_message OT (tx_w OT t) + 0 + dz_len d)) in *.
+  set (w2 := w_set_nbcb OT (w_set_tbefore OT (w_tick_clock OT w1) (dc_clock c (w_nclock OT w1))) 0) in *.
+  assert (HBW2 : BW w2) by (apply (dz_BW_enter OT c t0 Hclock); exact HBW0).
+  assert (Hdb : dd_bytes d = b :: ch') by reflexivity.
+  assert (Hdn : dd_null d = false) by reflexivity.
+  assert (Hdl : dz_len d = Z.of_nat (length (b :: ch'))) by reflexivity.
+  assert (Hdevs2 : dz_devs w2 = []) by (unfold dz_devs; subst w2 w1; wsimpl; rewrite Hev0; reflexivity).
+  assert (He2 : w_entity OT w2 = 0) by exact He0.
+  assert (Hm2 : w_message OT w2 = dz_len d) by (subst w2 w1; wsimpl; rewrite Hm0; lia).
+  clearbody w2. clear w1. clearbody d.
+  cbn [length dz_decompress] in Ht'. unfold dz_layer_run in Ht'. rewrite Hp, Hdn in Ht'.
+  assert (Henter : dz_enter d 0 = Some (b :: ch')).
+  { unfold dz_enter. rewrite Hdl, Hdb. cbn [skipn].
+    replace (length (b :: ch') <? 0)%nat with false by (symmetry; apply Nat.ltb_ge; lia).
+    replace (Z.of_nat (length (b :: ch')) >? c_dz_UINT32_MAX) with false by (symmetry; rewrite Z.gtb_ltb; apply Z.ltb_ge; lia). reflexivity. }
+  rewrite Henter in Ht'.
+  pose proof dz_bomb_ratio_ge as HR.
+  assert (Hprobe' : dz_probe (dd_bytes d) = O) by (rewrite Hdb; exact Hprobe).
+  assert (Hu32' : Z.of_nat (length (dd_bytes d)) <= c_dz_UINT32_MAX) by (rewrite Hdb; exact Hu32).
+  assert (Hgd : dz_gd (dz_zinit l)) by (rewrite Hz; exact Hfmt).
+  assert (Hr3 : (dz_restart l + 3 = 3)%nat) by lia.
+  assert (Hf3 : (3 + 1 < dc_fuel c + 1)%nat) by lia.
+  assert (Hf0 : (0 < dc_fuel c)%nat) by lia.
+  assert (Hent2 : w_entity OT w2 = Z.of_nat (length (dz_devs w2))) by (rewrite Hdevs2, He2; reflexivity).
+  assert (Hb2 : Z.of_nat (length (dz_devs w2)) + dz_len d <= c_HTP_COMPRESSION_BOMB_RATIO * w_message OT w2).
+  { rewrite Hdevs2, Hm2. cbn [length]. pose proof (dz_len_nonneg d). nia. }
+  destruct (dz_loop_reject (fun (ls : list dz_layer) (_ : dz_data) (w : world) => (ls, w, c_HTP_ERROR)) d b ch' Hdb Hprobe' Hu32'
+              3%nat l w2 w2 (dc_fuel c) 0 Hp Hgd Hob Hr3 Hf3 Hf0 (dz_sim_refl w2) HBW2 Hent2 Hb2) as (l3 & w3 & Hloop & Hpass3 & Hd3 & HBW3 & He3 & Hm3).
+  rewrite Hdb in Hloop. rewrite Hloop in Ht'. rewrite Hdb in Ht'.
+  unfold dz_gettimeofday in Ht'. rewrite (dz_after_call_benign' w3 HBW3) in Ht'. cbn [fst] in Ht'.
+  pose proof HBW3 as ((Hsp3 & Htp3) & Htb3). wsimpl. rewrite Htp3 in Ht'. subst t'. cbn [tx_w tx_chain tx_cep].
+  rewrite Hdevs2, Hdb in Hd3. cbn [app] in Hd3.
+  split.
+  - exists (dz_set_fed l3 true). cbn [tx_w tx_chain tx_cep]. unfold dz_BW0. wsimpl.
+    replace (dz_devs (w_set_tpass OT (w_set_tspent OT (w_tick_clock OT w3) 0) false)) with (dz_devs w3) by reflexivity.
+    csplit; auto. rewrite Hm3, Hd3, Hm2, Hdl. reflexivity.
+  - exact Hd3.
+Qed.
+
+Lemma dz_calls_app' (t : dz_tx OT) a1 a2 : dz_calls OT ask c t (a1 ++ a2) = dz_calls OT ask c (dz_calls OT ask c t a1) a2.
+Proof. revert t. induction a1 as [|[e d] r IH]; intros t; cbn [app dz_calls]; auto. Qed.
+
+Theorem dz_passthrough_lossless ce b ch' chunks (o : OT) :
+  (fmt = c_dz_COMPRESSION_GZIP /\ ce = s_gzip) \/ (fmt = c_dz_COMPRESSION_DEFLATE /\ ce = s_deflate) ->
+  dz_probe (b :: ch') = O -> Z.of_nat (length (b :: ch')) <= c_dz_UINT32_MAX ->
+  dz_devs (tx_w OT (fst (dz_run OT ask c (Some ce) (map (fun ch => (0, Some ch)) ((b :: ch') :: chunks) ++ [(0, None)]) o)))
+  = concat ((b :: ch') :: chunks).
+Proof.
+  intros Hsel Hprobe Hu32. unfold dz_run.
+  (* the chain: one fresh layer of the announced format *)
+  assert (Hhd : exists w0', dz_response_headers OT ask c (Some ce) (dz_world0 OT o) = mk_dz_tx OT [mk_dz_layer false 0 fmt [] 0 false] fmt w0' false /\
+                            dz_sim (dz_world0 OT o) w0').
+  { assert (Hq : forall wb, exists a w', dz_ask OT ask (dz_world0 OT o) (QInit wb) = (a, w') /\ da_rc a = c_dz_Z_OK /\ dz_sim (dz_world0 OT o) w').
+    { intros wb. pose proof (dz_ask_sim (dz_world0 OT o) (QInit wb)) as Hs. unfold dz_ask in *.
+      pose proof (Hini (w_o OT (dz_world0 OT o)) wb) as Hrc. destruct (ask (w_o OT (dz_world0 OT o)) (QInit wb)) as [a o']. cbn [fst snd] in *.
+      eexists _, _. split; [reflexivity|]. split; auto. }
+    destruct Hsel as [(Hf & Hce)|(Hf & Hce)]; subst ce; unfold dz_response_headers; rewrite Henabled.
+    - rewrite dz_cmp_gzip. cbn [orb]. rewrite Hf. unfold dz_create.
+      replace (c_dz_COMPRESSION_GZIP =? c_dz_COMPRESSION_LZMA) with false by reflexivity.
+      replace (c_dz_COMPRESSION_GZIP =? c_dz_COMPRESSION_DEFLATE) with false by reflexivity.
+      replace (c_dz_COMPRESSION_GZIP =? c_dz_COMPRESSION_GZIP) with true by reflexivity. cbn [orb negb].
+      destruct (Hq (15 + 32)) as (a & w' & Ha & Hrc & Hs). rewrite Ha, Hrc. cbn [negb Z.eqb]. exists w'. split; auto.
+    - rewrite dz_cmp_deflate_1, dz_cmp_deflate_2, dz_cmp_deflate_3. cbn [orb]. rewrite Hf. unfold dz_create.
+      replace (c_dz_COMPRESSION_DEFLATE =? c_dz_COMPRESSION_LZMA) with false by reflexivity.
+      replace (c_dz_COMPRESSION_DEFLATE =? c_dz_COMPRESSION_DEFLATE) with true by reflexivity.
+      replace (c_dz_COMPRESSION_DEFLATE =? c_dz_COMPRESSION_GZIP) with false by reflexivity. cbn [orb negb].
+      destruct (Hq (-15)) as (a & w' & Ha & Hrc & Hs). rewrite Ha, Hrc. cbn [negb Z.eqb]. exists w'. split; auto. }
+  destruct Hhd as (w0' & Hhd & Hs0). rewrite Hhd. cbn [fst tx_w tx_chain tx_cep].
+  set (tx0 := mk_dz_tx OT [mk_dz_layer false 0 fmt [] 0 false] fmt w0' false).
+  rewrite dz_calls_app'. cbn [map dz_calls].
+  destruct Hs0 as (He0 & Hm0 & Hev0 & Hsp0 & Htp0 & Htb0).
+  destruct (dz_process_first tx0 (mk_dz_layer false 0 fmt [] 0 false) b ch') as [HPI Hd1]; auto.
+  { unfold dz_BW0. subst tx0. cbn [tx_w]. rewrite Hsp0, Htp0. auto. }
+  cbv zeta in HPI, Hd1.
+  destruct (dz_calls_pass chunks _ HPI) as [HPI2 Hd2]. cbv zeta in HPI2, Hd2.
+  set (t2 := dz_calls OT ask c (fst (dz_process_body_data OT ask c tx0 0 (Some (b :: ch')))) (map (fun ch => (0, Some ch)) chunks)) in *.
+  destruct (dz_process_pass t2 None HPI2) as [Hd3 Hc3]. cbv zeta in Hd3, Hc3.
+  change (dz_calls OT ask c t2 [(0, None)]) with (fst (dz_process_body_data OT ask c t2 0 None)).
+  rewrite Hc3. cbn [dz_destroy]. rewrite Hd3, Hd2, Hd1. cbn [dz_data_of dd_bytes dz_null concat]. rewrite app_nil_r. reflexivity.
+Qed.
+End Passthrough.
